@@ -1120,17 +1120,17 @@ fn gen_net(r: &mut Rng) -> IpNet {
 
 fn gen_acl(r: &mut Rng) -> (Vec<IpNet>, Vec<IpNet>) {
     let n = |r: &mut Rng, k: u64| -> Vec<IpNet> { (0..k).map(|_| gen_net(r)).collect() };
-    match r.below(8) {
-        0 | 1 => (vec![], vec![]),
-        2 => {
+    match r.below(10) {
+        0..=3 => (vec![], vec![]),
+        4 => {
             let k = r.range(1, 3);
             (n(r, k), vec![])
         }
-        3 => {
+        5 => {
             let k = r.range(1, 3);
             (vec![], n(r, k))
         }
-        4 => {
+        6 => {
             // the same prefix in both lists
             let p = gen_net(r);
             (vec![p], vec![p])
@@ -1144,7 +1144,7 @@ fn gen_acl(r: &mut Rng) -> (Vec<IpNet>, Vec<IpNet>) {
 
 fn gen_src(r: &mut Rng, deny: &[IpNet], allow: &[IpNet]) -> IpAddr {
     let all: Vec<&IpNet> = deny.iter().chain(allow.iter()).collect();
-    let ip = if !all.is_empty() && r.chance(4, 5) {
+    let ip = if !all.is_empty() && r.chance(3, 5) {
         // inside / at the edges / just outside a configured prefix
         let p = **r.pick(&all);
         match p {
